@@ -337,11 +337,69 @@ func ruleFollowerApply(c *Ctx) {
 		"the follower re-bases its change log only when its index differs from the leader's")
 }
 
+// rulePerRegionLeader: on the follower every region of a response is built
+// with the leader of its own slot (or none): the leader handed to NewRegionInfo
+// must not be a value carried over from the previous iteration of the loop
+// over the response's regions.
+func rulePerRegionLeader(c *Ctx) {
+	P := c.P
+	rule := c.Prop + "/follower-apply"
+	newRI := F(P.Func("server/core", "NewRegionInfo"))
+	n := 0
+	for _, fn := range P.Funcs {
+		if fnPkgPath(fn) != modPath+"/server/region_syncer" || P.isScaffold(fn) {
+			continue
+		}
+		loops := loopsOf(fn)
+		k := 0
+		for _, ci := range callsIn(fn, false, newRI) {
+			a := callArgs(ci.Common())
+			if len(a) < 2 {
+				continue
+			}
+			var inner *loopInfo
+			for i := range loops {
+				if loops[i].blocks[ci.Block()] && (inner == nil || len(loops[i].blocks) < len(inner.blocks)) {
+					inner = &loops[i]
+				}
+			}
+			if inner == nil {
+				continue
+			}
+			n++
+			k++
+			carried := false
+			seen := map[ssa.Value]bool{}
+			var walk func(v ssa.Value, depth int)
+			walk = func(v ssa.Value, depth int) {
+				if v == nil || seen[v] || depth > 6 {
+					return
+				}
+				seen[v] = true
+				if phi, ok := v.(*ssa.Phi); ok {
+					if phi.Block() == inner.header {
+						carried = true // a φ of the loop header merges the value of the previous iteration
+						return
+					}
+					for _, e := range phi.Edges {
+						walk(e, depth+1)
+					}
+				}
+			}
+			walk(a[1], 0)
+			c.Check(!carried, rule, fmt.Sprintf("leader of NewRegionInfo #%d in %s", k, fnName(outer(fn))), "is this region's own leader or none — never the value left over from the previous region of the batch", P.instrPos(ci), "the leader argument is a loop-carried variable")
+		}
+	}
+	if n < 2 {
+		c.Undec(rule, "NewRegionInfo calls in sync loops", "at least 2", "", fmt.Sprintf("found %d", n))
+	}
+}
+
 func init() {
 	register("C16", "Followers converge to the leader's region view through region sync", func(c *Ctx) {
 		c.Group("C16/slice-congruence", "at every SyncRegionResponse literal carrying regions, Regions / RegionStats / RegionLeaders are length-congruent on every path and loop iteration", func() { ruleSyncArrays(c) })
 		c.Group("C16/leader-placeholder", "a leaderless region is sent with an empty peer in its slot", func() { ruleLeaderPlaceholder(c) })
 		c.Group("C16/history", "change-log buffer: fields under its lock; index++ and flush accounting on every record, persisted every defaultFlushCount=100; RecordsFrom answers only inside the window and returns a copy", func() { ruleHistoryBuffer(c) })
-		c.Group("C16/follower-apply", "the follower records a region only after put+save, indexes leaders/stats only under length guards, re-bases on index mismatch", func() { ruleFollowerApply(c) })
+		c.Group("C16/follower-apply", "the follower records a region only after put+save, indexes leaders/stats only under length guards, re-bases on index mismatch", func() { ruleFollowerApply(c); rulePerRegionLeader(c) })
 	})
 }
